@@ -405,7 +405,12 @@ def dispatch (fuel : Nat) (which : St) (s : Sc) (c : Cls) (p1 p2 : Option Cls) :
       | .at => pure { s with step := .tsBeginName }
       | _ => throw (errChar s "expects ' ', '\\t', or '@'")
   | .anyCommentStart =>
-      if c != .hash then pure { s with ann := .none, step := .inlineComment }
+      if c != .hash then
+        let s := { s with ann := .none, step := .inlineComment }
+        if c.isNewLine then do      -- empty comment: the line break ends it (fix "empty user comment")
+          let (r, s) ← popRet s
+          pure { (found s .newLine) with step := r, index := s.index - 1 }
+        else pure s
       else if p1 == some .hash then pure { s with ann := .none, step := .multiLineComment }   -- F-7a: bounds-checked
       else throw (errChar s "after first #")
   | .inlineComment => do
